@@ -1,8 +1,9 @@
 import HypatiaModel.ResultSet
+import HypatiaModel.ResultSetObj
 import HypatiaModel.Spec.ResultSetSpec
 import Driver.FieldSort
 namespace Driver.ResultSetS
-open Hyp Hyp.Field Hyp.RSet
+open Hyp Hyp.Field Hyp.RSet Hyp.RSet.Obj
 
 /-!
 Session `resultset`: numbered field indexes and numbered result-set slots.
@@ -10,34 +11,60 @@ Session `resultset`: numbered field indexes and numbered result-set slots.
   ix <i> index d v | ix <i> unindex d | ix <i> reset                     index commands of session `field`
   new <slot> <kind> <numids|auto> <resolver> d1 d2 …                       ResultSet(ids, numids, resolver)
         kind: list tuple pyset frozenset ifset (collections, ids in iteration order) | gen iter (one-shot)
-        resolver: none | plus (d ↦ object d+1000) | neg (d ↦ object -d-1)
+        resolver: none | plus (d ↦ object d+1000) | neg (d ↦ object -d-1) | plus/m/r, neg/m/r: the same, but
+        the resolver raises KeyError for every id d with d mod m = r (a stale docid)
   query <slot> <i> <resolver> <ge|le|gt|lt|eq> c                           index.<op>(c).execute(resolver=…)
   first <slot> <resolve> | one <slot> <resolve> | len <slot>
   all <slot> <resolve> | iter <slot> | take <slot> k                       drained item by item
   sort <src> <dst> <i> <reverse> <limit> <sort_type|none> <raise>          dst = src.sort(index i, …); the same
         call is made once more before and that result drained, so the answer shows len and content
   intersect <src> <dst> rs <other> | intersect <src> <dst> <kind> d1 d2 …  dst = src.intersect(…)
+  hall <slot> <h> <resolve> | hiter <slot> <h>                             h = slot.all(resolve) | iter(slot): only kept
+  hdrain <h> | htake <h> k                                                 the loop over what was kept (all / k items)
+        (object-level: `HypatiaModel/ResultSetObj.lean`; the spec answers for `hdrain` while nothing but
+        first / one / len happened to the result set since `h` was taken: the whole sequence)
 
 Answers `model ## spec`; the spec part is computed from the sequence the slot denotes and is given where
 the property determines the answer (otherwise the model's answer is repeated).
 -/
 
+/-- what a resolver gives: an object, or `none` when it raises KeyError -/
+abbrev R := Option Int
+
+def bad (r : R) : Bool := r.isNone
+
+structure HEntry where
+  h : Handle R
+  slot : Nat
+  born : Nat
+  pulled : Bool := false
+
 structure St where
   idx : AMap Nat FieldS.St := []
-  slots : AMap Nat (RS Int) := []
+  slots : AMap Nat (RS R) := []
+  tow : AMap Nat Tower := []           -- the iterator objects behind the stream-valued slots
+  handles : AMap Nat HEntry := []
+  epoch : AMap Nat Nat := []           -- per slot: bumped by everything but first / one / len
+  nextObj : Nat := 0
 
 def getIdx (st : St) (i : Nat) : FieldS.St := (AMap.get st.idx i).getD {}
 
-def resolver? (t : String) : Option (Option (Int → Int)) :=
-  match t with
-  | "none" => some none
-  | "plus" => some (some (fun d => d + 1000))
-  | "neg" => some (some (fun d => -d - 1))
+def resolver? (t : String) : Option (Option (Int → R)) :=
+  let base : String → Option (Int → Int) := fun n =>
+    if n = "plus" then some (fun d => d + 1000) else if n = "neg" then some (fun d => -d - 1) else none
+  match t.splitOn "/" with
+  | ["none"] => some none
+  | [n] => (base n).map (fun f => some (fun d => some (f d)))
+  | [n, m, r] =>
+    match base n, m.toNat?, r.toNat? with
+    | some f, some m, some r => some (some (fun d => if d % (m : Int) = (r : Int) then none else some (f d)))
+    | _, _, _ => none
   | _ => none
 
-def showVal : Val Int → String
+def showVal : Val R → String
   | .id d => toString d
-  | .obj r => "@" ++ toString r
+  | .obj (some r) => "@" ++ toString r
+  | .obj none => "err KeyError"
 
 def showErr : Err → String
   | .unsortable ds => "err Unsortable " ++ showIdSet ds.eraseDups
@@ -45,13 +72,21 @@ def showErr : Err → String
   | .noResults => "err NoResults"
   | .multipleResults => "err MultipleResults"
 
-def showOptVal : Except Err (Option (Val Int)) → String
+def showOptVal : Except Err (Option (Val R)) → String
   | .ok none => "none"
   | .ok (some v) => showVal v
   | .error e => showErr e
 
-def showDrain (items : List (Val Int)) (e : Option Err) : String :=
+def showDrain (items : List (Val R)) (e : Option Err) : String :=
   "[" ++ " ".intercalate (items.map showVal) ++ "] " ++ (match e with | none => "ok" | some e => showErr e)
+
+/-- a loop that ended by itself, by the resolver's KeyError, or by the Unsortable of the iterator -/
+def showPulled (p : Pulled R) (raised : Option (List Int)) : String :=
+  "[" ++ " ".intercalate (p.items.map showVal) ++ "] " ++
+    (if p.failed then "err KeyError" else
+      match (if p.hitEnd then raised else none) with
+      | none => "ok"
+      | some ds => showErr (.unsortable ds))
 
 def isStreamKind (k : String) : Option Bool :=
   if k = "gen" || k = "iter" then some true
@@ -62,9 +97,95 @@ def mkIds (kind : String) (ds : List Int) : Option Ids := do
   let s ← isStreamKind kind
   pure (if s then .stream { ids := ds } else .coll ds)
 
-def consistentB (rs : RS Int) : Bool := decide (Spec.Consistent rs)
+def consistentB (rs : RS R) : Bool := decide (Spec.Consistent rs)
 
-def setSlot (st : St) (k : Nat) (rs : RS Int) : St := { st with slots := AMap.set st.slots k rs }
+def bump (st : St) (k : Nat) : St :=
+  { st with epoch := AMap.set st.epoch k ((AMap.get st.epoch k).getD 0 + 1) }
+
+/-- a NEW result-set object in slot `k` (a stream gets a fresh tower) -/
+def setSlot (st : St) (k : Nat) (rs : RS R) : St :=
+  let st := bump st k
+  match rs.ids with
+  | .coll _ => { st with slots := AMap.set st.slots k rs, tow := AMap.erase st.tow k }
+  | .stream _ =>
+    { st with slots := AMap.set st.slots k rs, nextObj := st.nextObj + 1,
+              tow := AMap.set st.tow k { obj := st.nextObj, height := 0, topLen := 0 } }
+
+/-- the SAME result-set object after one of its methods ran (`pushed`: `first()` found an id in a stream) -/
+def updSlot (st : St) (k : Nat) (rs' : RS R) (pushed : Bool := false) (peek : Bool := false) : St :=
+  let st := if peek then st else bump st k
+  let tow' := match (AMap.get st.slots k).map (·.ids), rs'.ids, AMap.get st.tow k with
+    | some (.stream g), .stream g', some t => AMap.set st.tow k (t.sync pushed g g')
+    | _, .stream _, _ => st.tow
+    | _, .coll _, _ => AMap.erase st.tow k
+  { st with slots := AMap.set st.slots k rs', tow := tow' }
+
+/-- no kept `_resolve_all` generator still waits to read slot `k` (a slot is not reused then) -/
+def replaceable (st : St) (k : Nat) : Bool :=
+  st.handles.all (fun e => match e.2.h with | .lazy s _ => s != k | _ => true)
+
+/-- `list(rs.all(resolve))` / `list(islice(iter(rs), k))` when the resolver may raise: the loop of
+`_resolve_all` ends at the first id it raises for, which has been pulled from a one-shot `ids` -/
+def drainSlot (rs : RS R) (resolve : Bool) (k : Option Nat) : Option (RS R × String) :=
+  let res := if resolve then rs.resolver else none
+  let p := plan (Spec.seq rs) k res bad
+  if p.failed then some ((rs.take p.n).1, showPulled p none) else none
+
+def specDrain (rs : RS R) (resolve : Bool) : String :=
+  showPulled (plan (Spec.seq rs) none (if resolve then rs.resolver else none) bad) (Spec.pending rs)
+
+/-- `k` items (none: all) of the loop over a kept object -/
+def pullStarted (st : St) (hid : Nat) (e : HEntry) (k : Option Nat) : St × String :=
+  let keep := fun (st : St) (h : Handle R) =>
+    { st with handles := AMap.set st.handles hid { e with h := h, pulled := true } }
+  match e.h with
+  | .coll xs => (keep st e.h, showPulled (plan xs k none bad) none)
+  | .own g res =>
+    let p := plan g.ids k res bad
+    let g1 : Stream := { g with ids := g.ids.drop p.n }
+    if p.failed then (keep st .dead, showPulled p none)
+    else if p.hitEnd then let f := finish g1; (keep st (.own f.1 res), showPulled p f.2)
+    else (keep st (.own g1 res), showPulled p none)
+  | .alias slot obj level res =>
+    match AMap.get st.slots slot, AMap.get st.tow slot with
+    | some rs, some t =>
+      match rs.ids with
+      | .stream g =>
+        if t.obj = obj then
+          let p := plan (avail t level g) k res bad
+          let c := consume t level p.n g
+          let f := if p.hitEnd then finish c.2 else (c.2, none)
+          let st1 := bump st slot
+          let st2 := { st1 with slots := AMap.set st1.slots slot { rs with ids := .stream f.1 },
+                                tow := AMap.set st1.tow slot c.1 }
+          (keep st2 (if p.failed then .dead else e.h), showPulled p f.2)
+        else (keep st .dead, "[] ok")
+      | .coll _ => (keep st .dead, "[] ok")
+    | _, _ => (keep st .dead, "[] ok")
+  | .lazy _ _ => (st, "bad-op")
+  | .dead => (keep st .dead, "[] ok")
+
+def pullHandle (st : St) (hid : Nat) (k : Option Nat) : Option (St × String) := do
+  let e ← AMap.get st.handles hid
+  match e.h with
+  | .lazy slot f =>
+    if k = some 0 then pure (st, "[] ok")      -- islice(g, 0) never calls next(): the body does not start
+    else
+      let rs ← AMap.get st.slots slot
+      pure (pullStarted st hid { e with h := start slot rs (AMap.get st.tow slot) f } k)
+  | _ => pure (pullStarted st hid e k)
+
+/-- the property's answer for the loop over a kept object while nothing but first / one / len happened to the
+result set since it was taken: the whole sequence (through the resolver if `all()` resolves) -/
+def specHandle (st : St) (e : HEntry) : Option String := do
+  if e.pulled || (AMap.get st.epoch e.slot).getD 0 != e.born then none
+  let rs ← AMap.get st.slots e.slot
+  let res : Option (Int → R) := match e.h with
+    | .lazy _ f => some f
+    | .own _ r => r
+    | .alias _ _ _ r => r
+    | _ => none
+  pure (showPulled (plan (Spec.seq rs) none res bad) (Spec.pending rs))
 
 def runQuery (s : State Int) (op : String) (c : Int) : Option (List Int) :=
   match op with
@@ -76,7 +197,7 @@ def runQuery (s : State Int) (op : String) (c : Int) : Option (List Int) :=
   | _ => none
 
 /-- `len=… <content>` of a freshly sorted result set (model) -/
-def showSorted (rs : RS Int) : String :=
+def showSorted (rs : RS R) : String :=
   let c := rs.ids.contents
   s!"len={rs.len} " ++ (if rs.ids.hasLen then "list " else "gen ") ++ FieldSortS.showList c.1 ++
     (match c.2 with | none => " ok" | some ds => " Unsortable " ++ showIdSet ds.eraseDups)
@@ -86,7 +207,8 @@ def doSort (st : St) (src dst i : Nat) (rev : Bool) (lim : Option Int) (ty : Opt
   let rs ← AMap.get st.slots src
   let ix := getIdx st i
   let r := rs.sort (Field.sort ix.s) rev lim ty ru
-  let st1 := setSlot st src r.1
+  let st1 := updSlot st src r.1
+  if !replaceable st1 dst then none else
   match r.2 with
   | .error e =>
     -- the exception is the whole answer; where the property determines it, it is the model's
@@ -99,6 +221,12 @@ def doSort (st : St) (src dst i : Nat) (rev : Bool) (lim : Option Int) (ty : Opt
     let specLen := if consistentB rs && allSortable then n else rs'.len
     pure (st2, showSorted rs' ++ " ## " ++ s!"len={specLen} " ++
       FieldSortS.specAnswer ix.t sq rev lim (rs.effType ty) ru)
+
+/-- `first()` found an id in a one-shot `ids`: it stacked a chain object holding it -/
+def pushed (rs : RS R) (r : Except Err (Option (Val R))) : Bool :=
+  match rs.ids, r with
+  | .stream _, .ok (some _) => true
+  | _, _ => false
 
 def step (st : St) (toks : List String) : St × String :=
   let bad := (st, "bad-op")
@@ -114,14 +242,15 @@ def step (st : St) (toks : List String) : St × String :=
     match slot.toNat?, intList? ds, resolver? res with
     | some k, some ds, some res =>
       match mkIds kind ds, (if num = "auto" then some ds.length else num.toNat?) with
-      | some ids, some n => (setSlot st k { ids := ids, numids := n, resolver := res }, "ok")
+      | some ids, some n =>
+        if replaceable st k then (setSlot st k { ids := ids, numids := n, resolver := res }, "ok") else bad
       | _, _ => bad
     | _, _, _ => bad
   | ["query", slot, i, res, op, c] =>
     match slot.toNat?, i.toNat?, resolver? res, c.toInt? with
     | some k, some i, some res, some c =>
       match runQuery (getIdx st i).s op c with
-      | some ids => (setSlot st k (ofQuery (sortInts ids) res), "ok")
+      | some ids => if replaceable st k then (setSlot st k (ofQuery (sortInts ids) res), "ok") else bad
       | none => bad
     | _, _, _, _ => bad
   | ["first", slot, b] =>
@@ -130,14 +259,14 @@ def step (st : St) (toks : List String) : St × String :=
       let r := rs.first b
       let spec := if (Spec.pending rs).isNone || !(Spec.seq rs).isEmpty
         then showOptVal (.ok (Spec.first (rs.present b) (Spec.seq rs))) else showOptVal r.2
-      (setSlot st slot.toNat! r.1, showOptVal r.2 ++ " ## " ++ spec)
+      (updSlot st slot.toNat! r.1 (pushed rs r.2) true, showOptVal r.2 ++ " ## " ++ spec)
     | _, _ => bad
   | ["one", slot, b] =>
     match slot.toNat?.bind (AMap.get st.slots), boolTok? b with
     | some rs, some b =>
       let r := rs.one b
       let spec := if consistentB rs then showOptVal (Spec.one (rs.present b) (Spec.seq rs)) else showOptVal r.2
-      (setSlot st slot.toNat! r.1, showOptVal r.2 ++ " ## " ++ spec)
+      (updSlot st slot.toNat! r.1 (pushed rs r.2) true, showOptVal r.2 ++ " ## " ++ spec)
     | _, _ => bad
   | ["len", slot] =>
     match slot.toNat?.bind (AMap.get st.slots) with
@@ -148,22 +277,29 @@ def step (st : St) (toks : List String) : St × String :=
   | ["all", slot, b] =>
     match slot.toNat?.bind (AMap.get st.slots), boolTok? b with
     | some rs, some b =>
+      match drainSlot rs b none with
+      | some (rs', out) => (updSlot st slot.toNat! rs', out ++ " ## " ++ specDrain rs b)
+      | none =>
       let r := rs.all b
-      (setSlot st slot.toNat! r.1, showDrain r.2.1 r.2.2 ++ " ## " ++
-        showDrain ((Spec.seq rs).map (rs.present b)) ((Spec.pending rs).map Err.unsortable))
+      (updSlot st slot.toNat! r.1, showDrain r.2.1 r.2.2 ++ " ## " ++ specDrain rs b)
     | _, _ => bad
   | ["iter", slot] =>
     match slot.toNat?.bind (AMap.get st.slots) with
     | some rs =>
+      match drainSlot rs true none with
+      | some (rs', out) => (updSlot st slot.toNat! rs', out ++ " ## " ++ specDrain rs true)
+      | none =>
       let r := rs.iter
-      (setSlot st slot.toNat! r.1, showDrain r.2.1 r.2.2 ++ " ## " ++
-        showDrain ((Spec.seq rs).map (rs.present true)) ((Spec.pending rs).map Err.unsortable))
+      (updSlot st slot.toNat! r.1, showDrain r.2.1 r.2.2 ++ " ## " ++ specDrain rs true)
     | none => bad
   | ["take", slot, k] =>
     match slot.toNat?.bind (AMap.get st.slots), k.toNat? with
     | some rs, some k =>
+      match drainSlot rs true (some k) with
+      | some (rs', out) => (updSlot st slot.toNat! rs', out)
+      | none =>
       let r := rs.take k
-      (setSlot st slot.toNat! r.1, showDrain r.2.1 r.2.2)
+      (updSlot st slot.toNat! r.1, showDrain r.2.1 r.2.2)
     | _, _ => bad
   | ["sort", src, dst, i, rev, lim, ty, ru] =>
     match src.toNat?, dst.toNat?, i.toNat?, boolTok? rev, optInt? lim, FieldSortS.sortType? ty, boolTok? ru with
@@ -178,13 +314,15 @@ def step (st : St) (toks : List String) : St × String :=
         if src = other then
           -- the receiver is its own argument: `x in self.ids` while iterating it
           let r := rs.intersectRS rs
-          let st1 := setSlot st src (match rs.ids with | .coll _ => r.1 | .stream _ => r.2.1)
+          let st1 := updSlot st src (match rs.ids with | .coll _ => r.1 | .stream _ => r.2.1)
+          if !replaceable st1 dst then bad else
           match r.2.2 with
           | .error e => (st1, showErr e)
           | .ok res => (setSlot st1 dst res, s!"ok len={res.len}")
         else
           let r := rs.intersectRS o
-          let st1 := setSlot (setSlot st src r.1) other r.2.1
+          let st1 := updSlot (updSlot st src r.1) other r.2.1
+          if !replaceable st1 dst then bad else
           let spec := fun (m : String) =>
             if (Spec.pending rs).isNone && (Spec.pending o).isNone
             then s!"ok len={(Spec.intersect (Spec.seq rs) (Spec.seq o)).length}" else m
@@ -199,7 +337,8 @@ def step (st : St) (toks : List String) : St × String :=
       match AMap.get st.slots src, mkIds kind ds with
       | some rs, some arg =>
         let r := rs.intersectIds arg
-        let st1 := setSlot st src r.1
+        let st1 := updSlot st src r.1
+        if !replaceable st1 dst then bad else
         let spec := fun (m : String) =>
           if (Spec.pending rs).isNone then s!"ok len={(Spec.intersect (Spec.seq rs) ds).length}" else m
         match r.2.2 with
@@ -207,6 +346,37 @@ def step (st : St) (toks : List String) : St × String :=
         | .ok res => (setSlot st1 dst res, s!"ok len={res.len}" ++ " ## " ++ spec s!"ok len={res.len}")
       | _, _ => bad
     | _, _, _ => bad
+  | ["hall", slot, h, b] =>
+    match slot.toNat?, h.toNat?, boolTok? b with
+    | some slot, some h, some b =>
+      match AMap.get st.slots slot with
+      | some rs =>
+        let e : HEntry := { h := allHandle slot rs (AMap.get st.tow slot) b, slot := slot,
+                            born := (AMap.get st.epoch slot).getD 0 }
+        ({ st with handles := AMap.set st.handles h e }, "ok")
+      | none => bad
+    | _, _, _ => bad
+  | ["hiter", slot, h] =>
+    match slot.toNat?, h.toNat? with
+    | some slot, some h =>
+      match AMap.get st.slots slot with
+      | some rs =>
+        let e : HEntry := { h := iterHandle slot rs (AMap.get st.tow slot), slot := slot,
+                            born := (AMap.get st.epoch slot).getD 0 }
+        ({ st with handles := AMap.set st.handles h e }, "ok")
+      | none => bad
+    | _, _ => bad
+  | ["hdrain", h] =>
+    match h.toNat? with
+    | some h =>
+      match AMap.get st.handles h, pullHandle st h none with
+      | some e, some (st', out) => (st', out ++ " ## " ++ (specHandle st e).getD out)
+      | _, _ => bad
+    | none => bad
+  | ["htake", h, k] =>
+    match h.toNat?, k.toNat? with
+    | some h, some k => (pullHandle st h (some k)).getD bad
+    | _, _ => bad
   | _ => bad
 
 def sess : Sess := { σ := St, st := {}, step := step }
